@@ -231,7 +231,9 @@ fn classify(model: &[&PlistEntry]) -> Vec<String> {
             0 => "0",
             1..=5 => "1-5",
             6..=15 => "6-15",
-            _ => "16-30",
+            16..=30 => "16-30",
+            31..=99 => "31-99",
+            _ => "100+",
         }
     ));
     c.sort();
@@ -264,7 +266,7 @@ fn kind_name(e: &PlistEntry) -> &'static str {
     }
 }
 
-fn check_seq(ev: &mut Ev, scenario: &str, lines: &[Line], doc: &[u8]) -> CaseResult {
+fn check_seq(ev: &mut Ev, scenario: &str, lines: &[Line], doc: &[u8], dups: bool) -> CaseResult {
     let model: Vec<&PlistEntry> = lines.iter().filter_map(|l| l.entry()).collect();
     let p = match Plist::from_bytes(doc) {
         Ok(p) => p,
@@ -281,6 +283,9 @@ fn check_seq(ev: &mut Ev, scenario: &str, lines: &[Line], doc: &[u8]) -> CaseRes
     ev.count(&format!("scenario/{scenario}"));
     for c in classify(&model) {
         ev.count(&c);
+    }
+    if dups {
+        ev.count("duplicates/present");
     }
     ev.add("files/kept", want.files.len() as u64);
     ev.add("files/ignored", want.ignored_files as u64);
@@ -318,6 +323,10 @@ pub fn run(cx: &mut Cx) {
         "preserve/repeated",
         "length/0",
         "length/16-30",
+        "length/31-99",
+        "scenario/realistic",
+        "duplicates/present",
+        "scenario/long",
     ] {
         cx.ev.require(k);
     }
@@ -335,7 +344,11 @@ pub fn run(cx: &mut Cx) {
         let g = k * nshards + shard;
         let sc = g % gp::SCENARIOS.len();
         let rot = g / gp::SCENARIOS.len();
-        let lines = gp::sequence(&mut r, sc, rot);
+        let mut lines = gp::sequence(&mut r, sc, rot);
+        let dups = r.chance(1, 5) && !lines.is_empty();
+        if dups {
+            lines = gp::with_duplicates(&mut r, lines);
+        }
         let density = r.below(4);
         let lay = gp::layout(&mut r, lines.len(), density);
         let items: Vec<&[u8]> = lines.iter().map(|l| &l.bytes[..]).collect();
@@ -343,7 +356,7 @@ pub fn run(cx: &mut Cx) {
         let scenario = gp::SCENARIOS[sc];
         cx.check(
             || format!("sequence ({scenario}, {} entries) {:?}", lines.len(), Q(&doc)),
-            |ev| check_seq(ev, scenario, &lines, &doc),
+            |ev| check_seq(ev, scenario, &lines, &doc, dups),
         );
     }
 }
